@@ -45,6 +45,10 @@ def _rebound(case):
     p2, info = progs.apply_edit(case["program"], rb, "r")
     if not info["applied"]:
         return None, []
+    if not info.get("stmt") and any(dd.get("gdef") == info.get("target") for dd in progs.fns(p2)):
+        # the variable is also the default value of a parameter: a default is evaluated when the function is defined, so
+        # "new value in the text" and "re-bound after the import" are different programs (the default keeps the old object)
+        return None, []
     if any(dd["k"] == "alias" and dd.get("form") == "clone" for dd in p2["defs"]):
         # a module-level modifier clone created at import time pins the version its function had then; after an in-process
         # change it makes every function that refers to it differ from a fresh import - known finding held-clone (recorded
@@ -141,7 +145,7 @@ def execute(case, scratch):
             if a["results"] != b["results"]:
                 out.violation("second process returned different values: %r vs %r" % (b["results"], a["results"]), symptom="values-differ")
         feats = progs.features(prog)
-        sensitive = ("inset" in feats) or ("dict-from-set" in feats) or ("mixed-type-set" in feats) or ("fn-default" in feats) or ("version-query-at-import" in feats) or ("in-place-update-at-import" in feats) or ("same-name-in-two-modules" in feats) or ("two-module-level-lambdas" in feats) or ("function-and-module-level-clone" in feats) or sum(1 for dd in prog["defs"] if dd["k"] == "var") >= 2 or \
+        sensitive = ("inset" in feats) or ("dict-from-set" in feats) or ("mixed-type-set" in feats) or ("variable-as-parameter-default" in feats) or ("fn-default" in feats) or ("version-query-at-import" in feats) or ("in-place-update-at-import" in feats) or ("same-name-in-two-modules" in feats) or ("two-module-level-lambdas" in feats) or ("function-and-module-level-clone" in feats) or sum(1 for dd in prog["defs"] if dd["k"] == "var") >= 2 or \
             any(len(progs.edges(prog, f["name"])[0]) >= 2 for f in progs.fns(prog))
         differ = len({c["seed"] for c in cfgs}) > 1
         out.nontrivial = sensitive and differ
@@ -174,7 +178,7 @@ def strategy(thorough):
     rebind = st.integers(0, 2).flatmap(lambda i: st.none() if i == 0 else st.builds(
         lambda e, k: dict(e, kind=k), progs.edit_strategy(), st.sampled_from(["var", "varmut", "varmut", "varcopy"])))
     return st.builds(lambda p, c, rb: {"program": p, "configs": c, "rebind": rb},
-                     progs.program_strategy(max_fns=7 if thorough else 5, allow_hidden=False, allow_fdef=True, allow_dictset=True, allow_query=True, allow_mut=True, allow_tuplist=True, allow_twins=True, allow_keyclash=True, allow_rename=True, allow_mixset=True, allow_nested_refs=True), cfgs, rebind)
+                     progs.program_strategy(max_fns=7 if thorough else 5, allow_hidden=False, allow_fdef=True, allow_dictset=True, allow_query=True, allow_mut=True, allow_tuplist=True, allow_twins=True, allow_keyclash=True, allow_rename=True, allow_mixset=True, allow_nested_refs=True, allow_gdef=True), cfgs, rebind)
 
 
 def run_shard(ctx):
